@@ -73,6 +73,15 @@ func plan(thorough bool) []item {
 			}
 		}
 	}
+	// many versions of one user key (TableSpec.Deep): every subset of {a@5, b, c@5#9, c@5#2} plus the
+	// three extra versions of c@5
+	for _, mask := range []uint32{0, 0b00001, 0b00010, 0b00011, 0b00100, 0b00101, 0b00111, 0b10000, 0b10100, 0b10111} {
+		for _, f := range formats {
+			for _, l := range layouts {
+				items = append(items, item{"point", TableSpec{Mask: mask, Layout: l, Format: f, Deep: true}})
+			}
+		}
+	}
 	for _, pm := range []uint32{0, 0b111} {
 		for rd := 0; rd < len(rdMenu); rd++ {
 			for rk := 0; rk < len(rkMenu); rk++ {
